@@ -10,6 +10,7 @@ import (
 	"fmt"
 	"os"
 	"sort"
+	"sync"
 	"testing"
 	"time"
 
@@ -381,9 +382,38 @@ type vnProxy struct {
 	record bool
 	sched  *vnSched
 	last   string
+
+	// free-running race support: commit order, one slow snapshot write, stop right after it
+	mu            sync.Mutex
+	commits       []vnCommit
+	slowHash      crypto.Hash
+	slowEntered   chan struct{}
+	stopAfterSlow bool
+	stopped       bool
+	raceCalls     []vnRaceCall
+	racing        bool
+	lastPos       uint64
+}
+
+type vnCommit struct {
+	hash crypto.Hash
+	pos  uint64
+}
+
+// race mode: every completed call is recorded in real-time order with the handler it belongs to
+type vnRaceCall struct {
+	goid int64
+	call string
+	pos  uint64
 }
 
 func (p *vnProxy) step(name string) {
+	p.mu.Lock()
+	st := p.stopped
+	p.mu.Unlock()
+	if st {
+		panic(vnStop{})
+	}
 	p.schedBefore(name)
 	p.calls++
 	if p.record {
@@ -395,6 +425,11 @@ func (p *vnProxy) step(name string) {
 }
 
 func (p *vnProxy) done(name string) {
+	if p.racing && name != "WriteSnapshot" {
+		p.mu.Lock()
+		p.raceCalls = append(p.raceCalls, vnRaceCall{vnGoid(), name, 0})
+		p.mu.Unlock()
+	}
 	p.schedAfter(name)
 	if p.cut >= 0 && p.after && p.calls == p.cut {
 		panic(vnStop{p.calls})
@@ -445,7 +480,22 @@ func (p *vnProxy) UpdateEmptyHeadRound(node crypto.Hash, number uint64, referenc
 }
 func (p *vnProxy) WriteSnapshot(s *common.SnapshotWithTopologicalOrder, signers []crypto.Hash) error {
 	p.step("WriteSnapshot")
+	slow := p.stopAfterSlow && s.Hash == p.slowHash
+	if slow {
+		close(p.slowEntered) // the other handler starts now, while this write is in progress
+		time.Sleep(80 * time.Millisecond)
+	}
 	err := p.BadgerStore.WriteSnapshot(s, signers)
+	p.mu.Lock()
+	p.commits = append(p.commits, vnCommit{s.Hash, s.TopologicalOrder})
+	p.lastPos = s.TopologicalOrder
+	if p.racing {
+		p.raceCalls = append(p.raceCalls, vnRaceCall{vnGoid(), "WriteSnapshot", s.TopologicalOrder})
+	}
+	if slow {
+		p.stopped = true
+	}
+	p.mu.Unlock()
 	p.done("WriteSnapshot")
 	return err
 }
